@@ -178,7 +178,7 @@ def run(ctx):
     for c in data['cases']:
         res.evaluations += 1
         d = c['desc']
-        for k in ('mode', 'filter', 'poison_publisher', 'handler_outcome', 'metadata', 'pre_settle', 'middleware_placement', 'message_context'):
+        for k in ('mode', 'filter', 'poison_publisher', 'handler_outcome', 'metadata', 'pre_settle', 'middleware_placement', 'message_context', 'uuid'):
             res.count('%s=%s' % (k, d[k]))
         res.count('in_flight=%d' % c['flight'])
         if d['handler_outcome'] == 'fails': res.count('handler_error=%s' % d['handler_error'])
@@ -200,9 +200,9 @@ def run(ctx):
         if any(not e[4] for e in pubs):
             res.mismatches.append(dict(kind='the message passed to the poison publisher is not the consumed object (Handler/Poison.v publishes the object itself; the property only fixes its content)',
                                        explained_by_violation=False, case=describe(c, strings)))
-        if d['handler_outcome'] != 'returns' or c['acts'] or c['pre'] or d['message_context'] != 'live':
+        if d['handler_outcome'] != 'returns' or c['acts'] or c['pre'] or d['message_context'] != 'live' or d['uuid'] != 'unique':
             res.nontrivial.add((d['mode'], d['filter'], d['poison_publisher'], d['handler_outcome'], d['handler_error'], d['metadata'], c['pre'],
-                                str(d['acts']), d['message_context'], str(d['outs']), d['router_publisher'] if c['router'] else '', d['handler'], d['poison_topic']))
+                                str(d['acts']), d['message_context'], d['uuid'], str(d['outs']), d['router_publisher'] if c['router'] else '', d['handler'], d['poison_topic']))
         res.count('poison_publishes_observed=%d' % len(pubs))
         res.count('final=%s' % ST[c['final']])
     from concurrent.futures import ThreadPoolExecutor
@@ -250,7 +250,7 @@ def run(ctx):
                 '(publisher / AddNoPublisherHandler / nil publisher; distinct subscribe topics, handler names and subscriber names incl. "") sharing ONE middleware value at router or handler level, '
                 'the middleware called directly around three handlers}: every error shape (sentinels, fmt %w, pkg/errors.Wrap, nested both ways, multierror with 0/1/2 elements, wrapped multierror) '
                 'x poison publisher {accept, error, panic} (+ nil publisher groups), successes with outputs incl. the consumed object itself, panics, nil-map and already-poisoned metadata; '
-                'handler pre-settle, metadata/payload/context changes by the handler, the state of the message context {live, already cancelled / past its deadline at delivery, cancelled by the handler, cancelled or timed out from outside while the handler runs} (enumerated x poison publisher behaviour with a failing handler, and drawn elsewhere), payloads, Router publisher behaviour and poison topic drawn from the seed; plus random groups; '
+                'boundary UUIDs {empty, shared by several messages of the group} (enumerated x poison publisher behaviour with a failing handler, and drawn elsewhere), handler pre-settle, metadata/payload/context changes by the handler, the state of the message context {live, already cancelled / past its deadline at delivery, cancelled by the handler, cancelled or timed out from outside while the handler runs} (enumerated x poison publisher behaviour with a failing handler, and drawn elsewhere), payloads, Router publisher behaviour and poison topic drawn from the seed; plus random groups; '
                 '1..8 messages in flight with a rendezvous at the first collaborator call; plus 800 sequential cases of PoisonQueue(Retry(h)) with the real Retry middleware (MaxRetries 0..3, 0..4 failing attempts with different errors then success / failure for ever), directly and inside a Router; non-trivial = anything but a plain untouched success; distinct by script.')
     return res
 
